@@ -2,7 +2,7 @@
 import json
 from . import common as C
 
-HEADER = 'From WM Require Import Base.Prelude Message.Model Handler.RouterHandle Decor.Model Decor.Monitor Corr.C20.\n'
+HEADER = 'From WM Require Import Base.Prelude Message.Model Handler.RouterHandle Decor.Model Decor.Monitor Decor.RouterMetrics Corr.C20.\n'
 ST = ['Unsettled', 'Acked', 'Nacked']
 SIG_TWICE = 'C20/handler-middleware-twice-counts-twice'
 SIG_D11 = 'C20/handler-panic-recorded-as-success'
@@ -106,7 +106,7 @@ def sub_case(c):
 
 HOUT = ['HOk', 'HErr', 'HPanic']
 def mw_case(c):
-    msgs = L(['(RMsg %s %d %s)' % (HOUT[m['out']], m['nouts'], B(m['pub_ok'])) for m in c['msgs']])
+    msgs = L(['(RMsg %s %d %s)' % (HOUT[m['out']], m['nouts'], 'PubPanic' if m.get('pub_panic') else ('PubAccept' if m['pub_ok'] else 'PubError')) for m in c['msgs']])
     return '(MwCase %d %s %s %s %s %s %s %s %s)' % (c['layers'], B(c['router']), N(c['h']), N(c['s']), N(c['p']), msgs,
                                                   tab2(c['htab']), tab3(c['stab']), tab3(c['ptab']))
 
@@ -143,7 +143,7 @@ def describe_sub(c, strings):
 
 def describe_mw(c, strings):
     return dict(kind='handler middleware' + (' in a Router with AddPrometheusRouterMetrics' if c['router'] else ' called directly'), times_applied=c['layers'],
-                invocations=[dict(outcome=['ok', 'error', 'panic'][m['out']], outputs=m['nouts'], returns_consumed_message=m.get('pass', False), publisher_accepts=m['pub_ok'],
+                invocations=[dict(outcome=['ok', 'error', 'panic'][m['out']], outputs=m['nouts'], returns_consumed_message=m.get('pass', False), publisher_accepts=m['pub_ok'], publisher_panics=m.get('pub_panic', False),
                                   panic_value=['string', 'error', 'nil'][m['panicv']] if m['out'] == 2 else None) for m in c['msgs']],
                 handler_execution_time_seconds=[[strings[r[0]]] + r[1:] for r in c['htab']],
                 subscriber_messages_received_total=[[strings[r[0]], strings[r[1]]] + r[2:] for r in c['stab']],
@@ -246,8 +246,8 @@ def one_round(res, pid, seed, n, rnd, race=False):
             continue
         good.append(c)
         res.count('mw %s layers=%d' % ('router' if c['router'] else 'direct', c['layers']))
-        for m in c['msgs']: res.count('mw outcome=%s' % ['ok', 'error', 'panic'][m['out']] + ('+outputs' if m['nouts'] else '') + ('(the consumed message itself)' if m.get('pass') else '') + ('' if m['pub_ok'] or not m['nouts'] else '+publish-fails'))
-        res.nontrivial.add(('mw', c['router'], c['layers'], tuple((m['out'], m['nouts'], m['pub_ok'], m.get('pass')) for m in c['msgs'])))
+        for m in c['msgs']: res.count('mw outcome=%s' % ['ok', 'error', 'panic'][m['out']] + ('+outputs' if m['nouts'] else '') + ('(the consumed message itself)' if m.get('pass') else '') + ('' if not m['nouts'] else ('+publisher-panics' if m.get('pub_panic') else ('' if m['pub_ok'] else '+publish-fails'))))
+        res.nontrivial.add(('mw', c['router'], c['layers'], tuple((m['out'], m['nouts'], m['pub_ok'], m.get('pass'), m.get('pub_panic')) for m in c['msgs'])))
     if good:
         r = C.coq_eval(pid, 'cases_mw_%d' % rnd, HEADER + 'Definition cases : list mw_case := %s.\n' % L([mw_case(c) for c in good]),
                        [('R_mis', 'c20_mw_mismatches true cases'), ('R_pin', 'c20_mw_mismatches false cases'), ('R_vio', 'c20_mw_violations cases')])
